@@ -533,7 +533,7 @@ func (up *SyncClient) sendNodesLocal(node data.NodeEdge) error {
 	}
 
 	// process child nodes
-	childNodes, err := GetNodes(up.nc, node.ID, "all", "", false)
+	childNodes, err := GetNodes(up.ncRemote, node.ID, "all", "", false)
 	if err != nil {
 		return fmt.Errorf("Error getting node children: %v", err)
 	}
